@@ -50,7 +50,7 @@ func (r *Reconciler) ExtendPause(increment klog.Duration) error {
 
 	extendedPause := r.Record.Entries()[pauseEntryI].Duration().Plus(increment)
 	pauseLineIndex := r.lastLinePointer - countLines(r.Record.Entries()[pauseEntryI:])
-	durationPattern := regexp.MustCompile(`(-\w+)`)
+	durationPattern := regexp.MustCompile(`\S+`) // The duration value is the first token in the line
 	value := durationPattern.FindString(r.lines[pauseLineIndex].Text)
 	if extendedPause.InMinutes() != 0 {
 		r.lines[pauseLineIndex].Text = strings.Replace(r.lines[pauseLineIndex].Text, value, extendedPause.ToString(), 1)
